@@ -221,9 +221,40 @@ from_bytes_be = Fn(F, "from_bytes_be", impl="BigInt", ret="res", props=["C05", "
           guard="bytes@.len() == 0 || bytes@[0] < 0x80", finding="D11"),
     ])
 
+convert_le = Fn(F, "convert_le", impl="BigInt", ret="res", props=["C05", "C03"],
+    requires=[C("sized", "self.size is Some", ["C03"])],
+    ensures=[C("bytes_in_the_opposite_order", "self.size->0 % 8 == 0 && self.fits_size() ==> le_swapped(*self, res)", ["C05"])],
+    loops={1: Loop(invariant=[
+        C("bytes", "num_bigint::unsigned_le(be_bytes@) == abs(value.val()) && be_bytes@.len() >= 1 && be_bytes@.len() <= (if orig_len >= size / 8 { orig_len as int } else { (size / 8) as int }) && be_bytes@.len() >= orig_len"),
+    ], decreases="size / 8 - be_bytes@.len()", before="        let ghost orig_len = be_bytes@.len(); let ghost orig = be_bytes@;",
+       body_start="            proof { num_bigint::lemma_unsigned_le_push_zero(be_bytes@); }")},
+    inserts=[Insert("        BigInt::new(new_value, self.size)", """        proof {
+            if size % 8 == 0 && self.fits_size() {
+                let k = (size / 8) as nat;
+                num_bigint::lemma_p256_pow2(k);
+                assert(8 * k == size);
+                if k >= 1 {
+                    // the minimal encoding of a value below 256^k has at most k bytes, so padding made it exactly k
+                    assert(be_bytes@.len() == k) by {
+                        num_bigint::lemma_minimal_le_len(orig, k);
+                    }
+                    assert(low_bits_are(num_bigint::unsigned_le(be_bytes@), self.val(), size as nat));
+                } else {
+                    // size 0: the value is 0, encoded as the single byte 0
+                    let e = Seq::<u8>::empty();
+                    assert(value.val() == 0) by { vstd::arithmetic::power2::lemma2_to64(); }
+                    assert(num_bigint::unsigned_le(e) == 0);
+                    assert(low_bits_are(num_bigint::unsigned_le(e), self.val(), 0));
+                    num_bigint::lemma_unsigned_be_zero(be_bytes@);
+                    assert(num_bigint::unsigned_be(e) == 0);
+                }
+            }
+        }
+""", where="before")])
+
 ALL_FNS = [new, min_size, sign, size_or_min_size, set_bit, get_bit, maybe_into, checked_into, checked_into_nonzero_usize,
            checked_add, checked_sub, checked_mul, checked_div, checked_mod, checked_shl, checked_shr,
-           slice_, checked_slice, concat, from_bytes_be]
+           slice_, checked_slice, concat, from_bytes_be, convert_le]
 
 
 def items(mode, slot="util", only=None, with_ops=False, with_cmp=False):
